@@ -269,6 +269,9 @@ func c02(r *mon.Run) {
 		gen.Cmp("!=", gen.Current(), gen.LitJSON("1")), gen.Cmp("!=", gen.Field("a"), gen.Raw("x")), gen.Not(gen.Cmp("==", gen.Field("a"), gen.LitJSON("1"))), gen.Cmp("<", gen.Field("a"), gen.LitJSON("2")),
 		gen.Cmp("!=", gen.Field("a"), gen.Field("b")), gen.Cmp("!=", gen.LitJSON("1"), gen.Field("a")), gen.Not(gen.Field("a")), gen.Cmp("==", gen.Field("a"), gen.Field("missing")),
 		gen.Or(gen.Cmp("==", gen.Field("a"), gen.LitJSON("1")), gen.Not(gen.Field("b"))), gen.Cmp("!=", gen.Field("a"), gen.LitJSON("[]")), gen.Cmp("==", gen.Func("type", gen.Field("a")), gen.Raw("null")),
+		// true / false / null written bare are member names (absent here: null), not constants
+		gen.Cmp("==", gen.Field("a"), &gen.Expr{K: gen.KField, Name: "true"}), gen.Cmp("!=", gen.Field("a"), &gen.Expr{K: gen.KField, Name: "null"}), gen.Cmp("==", &gen.Expr{K: gen.KField, Name: "false"}, gen.Field("a")),
+		gen.Cmp("==", gen.Field("a"), gen.LitJSON("true")), &gen.Expr{K: gen.KField, Name: "true"}, gen.Not(&gen.Expr{K: gen.KField, Name: "null"}),
 	}
 	fshapes := []func(c *gen.Expr) *gen.Expr{
 		func(c *gen.Expr) *gen.Expr { return gen.Chain(nil, gen.StFilter(c)) }, func(c *gen.Expr) *gen.Expr { return gen.Chain(gen.Field("a"), gen.StFilter(c)) },
